@@ -471,6 +471,7 @@ class StructureSimilarity(object):
             else:
                 msg = f'\t FNAT: not find residue: {resA}'
                 warnings.warn(msg)
+                nTotal += len(resB_list)
 
         # normalize
         return round(nCommon / nTotal, 6)
